@@ -55,12 +55,15 @@ class SList:
         self.id = next(SList._ids)
         self.kind = kind
         self.opaque_tail = origin is not None     # holds elements the interpreter did not enumerate
+        self.source = None         # the sequence a fully enumerated comprehension ran over
+        self.tail = []             # sequences appended after the enumerated items (extend / += with a non-enumerated sequence)
 
     def __repr__(self):
         if self.origin is not None:
             return f'[{show(self.origin[1])} for each of {show(self.origin[0])}' + \
                 (f' if {" and ".join(show(c) for c in self.origin[2])}' if self.origin[2] else '') + ']'
-        return '[' + ', '.join(show(i) for i in self.items) + (', ...' if self.opaque_tail else '') + ']'
+        return '[' + ', '.join(show(i) for i in self.items) + ''.join(f', *{show(t)}' for t in self.tail) + \
+            (', ...' if self.opaque_tail and not self.tail else '') + ']'
 
 
 def show(v):
@@ -340,7 +343,7 @@ class Exec:
                 if other is None:
                     known = True
                 elif isinstance(other, (Sym, SList, bool, int, str)) or (isinstance(other, T) and (
-                        other.op in ('tuple', 'dict', 'lambda', 'func', 'bin', 'cmp', 'slice', 'fstr', 'not', 'neg', 'class')
+                        other.op in ('tuple', 'dict', 'lambda', 'func', 'bin', 'cmp', 'slice', 'fstr', 'not', 'neg', 'class', 'new')
                         or (other.op == 'call' and other.args[0] in ('len', 'isinstance', 'sorted', 'list', 'tuple', 'set', 'enumerate', 'reversed')))):
                     known = False
             elif isinstance(l, conc) and isinstance(r, conc):
@@ -383,11 +386,17 @@ class Exec:
         out = SList(kind=kind)
         items = self.iterate(seq)
         if items is not None and len(e.generators) == 1:
+            out.source = seq
             for it in items:
                 env2 = dict(env)
                 self.bind(gen.target, it, env2)
                 if all(self.truth(self.ev(c, env2), c) for c in gen.ifs):
-                    out.items.append(self.ev(elt, env2) if not isinstance(elt, tuple) else tuple(self.ev(x, env2) for x in elt))
+                    v = self.ev(elt, env2) if not isinstance(elt, tuple) else tuple(self.ev(x, env2) for x in elt)
+                    if kind == 'dict':
+                        out.items = [x for x in out.items if x[0] != v[0]]     # a later entry replaces the one with an equal key
+                    elif kind == 'set' and v in out.items:
+                        continue
+                    out.items.append(v)
             return out
         if len(e.generators) != 1:
             return T('comp', (ast.unparse(e),))
@@ -444,12 +453,9 @@ class Exec:
         for a in e.args:
             v = self.ev(a, env)
             if isinstance(a, ast.Starred):
-                inner = v.args[0]
-                if isinstance(inner, SList) and not inner.opaque_tail:
-                    args.extend(inner.items)
-                    continue
-                if isinstance(inner, T) and inner.op == 'tuple':
-                    args.extend(inner.args)
+                inner = self.iterate(v.args[0])
+                if inner is not None:
+                    args.extend(inner)
                     continue
             args.append(v)
         kwargs = tuple((k.arg, self.ev(k.value, env)) for k in e.keywords)
@@ -522,12 +528,22 @@ class Exec:
             return simplify(T('call', ('len', args, ())))
         if name in ('list', 'tuple', 'set', 'sorted', 'reversed', 'iter', 'frozenset') and len(args) == 1 and not kwargs:
             a = args[0]
+            if name == 'sorted' and isinstance(a, SList) and not a.opaque_tail and (all(type(x) is int for x in a.items)
+                                                                                   or all(type(x) is str for x in a.items)):
+                return SList(sorted(a.items))
+            if name in ('set', 'frozenset') and isinstance(a, SList) and not a.opaque_tail:
+                items = []
+                for x in a.items:
+                    if x not in items:
+                        items.append(x)
+                return SList(items, kind='set')
             if name in ('list', 'tuple', 'iter') and isinstance(a, SList):
                 if name == 'tuple' and not a.opaque_tail:
                     return T('tuple', tuple(a.items))
                 if name == 'list':
                     n = SList(a.items, origin=a.origin, kind='list')
                     n.opaque_tail = a.opaque_tail
+                    n.source = a.source
                     # the copy holds the same elements: events are attributed to the copy as well
                     if a.origin is not None:
                         self.events.append(('alias', n.id, a.id))
@@ -538,23 +554,41 @@ class Exec:
             return T('call', (name, args, ()))
         if name == 'getattr' and len(args) >= 2 and isinstance(args[1], str):
             return self.getattr(args[0], args[1])
+        if name == 'range' and 1 <= len(args) <= 2 and all(type(a) is int for a in args):
+            return SList(list(range(*args)))
         if name == 'enumerate' and len(args) == 1:
             return T('call', ('enumerate', args, ()))
+        if name in ('any', 'all') and len(args) == 1:
+            a = args[0]
+            if isinstance(a, SList) and not a.opaque_tail:
+                ts = [self.truth(x, node) for x in a.items]
+                return any(ts) if name == 'any' else all(ts)
+            if isinstance(a, SList) and a.origin is not None:
+                # one symbolic element stands for the elements: any() is decided by whether it holds for that element
+                seq, elt, conds = a.origin
+                if elt is None:       # filtered out on this path
+                    return name == 'all'
+                return self.truth(elt, node)
+            return T('call', (name, args, ()))
         if name in ('str', 'repr', 'int', 'bool') and len(args) == 1 and isinstance(args[0], (str, int, bool)):
             return {'str': str, 'repr': repr, 'int': int, 'bool': bool}[name](args[0])
         return NotImplemented
 
     def list_method(self, lst, attr, args, kwargs):
         if attr == 'append' and len(args) == 1:
-            lst.items.append(args[0])
+            if lst.tail:
+                lst.tail.append(SList([args[0]]))
+            else:
+                lst.items.append(args[0])
             self.events.append(('produce', lst.id, args[0]))
             return None
         if attr == 'extend' and len(args) == 1:
             a = args[0]
-            if isinstance(a, SList) and not a.opaque_tail:
+            if isinstance(a, SList) and not a.opaque_tail and not lst.tail:
                 lst.items.extend(a.items)
             else:
                 lst.opaque_tail = True
+                lst.tail.append(a)
             self.events.append(('extend', lst.id, a))
             return None
         if attr in ('sort', 'reverse', 'insert', 'pop', 'remove', 'clear'):
@@ -568,6 +602,12 @@ class Exec:
             n = SList(lst.items, origin=lst.origin, kind=lst.kind)
             n.opaque_tail = lst.opaque_tail
             return n
+        if attr == 'get' and lst.kind == 'dict' and not lst.opaque_tail and len(args) in (1, 2) \
+                and isinstance(args[0], (str, int, bool, type(None), Sym)):
+            for k, v in lst.items:
+                if k == args[0]:
+                    return v
+            return args[1] if len(args) == 2 else None
         if attr == 'add' and len(args) == 1:
             lst.items.append(args[0])
             self.events.append(('produce', lst.id, args[0]))
@@ -588,15 +628,14 @@ class Exec:
 
     def inline(self, target, recv, args, kwargs):
         """Interpret a package function in place."""
-        node = target.node if isinstance(target, FuncInfo) else target
-        a = node.args
-        params = [x.arg for x in a.posonlyargs + a.args]
         env = {'__fi__': target if isinstance(target, FuncInfo) else None}
         if isinstance(target, _Closure):
             env.update(target.env)
             node = target.node
-            a = node.args
-            params = [x.arg for x in a.posonlyargs + a.args]
+        else:
+            node = target.node if isinstance(target, FuncInfo) else target
+        a = node.args
+        params = [x.arg for x in a.posonlyargs + a.args]
         vals = list(args)
         is_method = isinstance(target, FuncInfo) and isinstance(target.parent, ClassInfo) and params[:1] in (['self'], ['cls']) \
             and not any(isinstance(d, ast.Name) and d.id == 'staticmethod' for d in node.decorator_list)
@@ -1025,6 +1064,72 @@ class Engine:
                 alt = ex.decisions[:i] + [(ex.decisions[i][0], not ex.decisions[i][1])]
                 stack.append(alt)
         return out
+
+
+def canon(v):
+    """Structural normal form of a value as nested tuples: lists by content, concatenation flattened, commutative operands ordered."""
+    if isinstance(v, SList):
+        if v.origin is not None:
+            seq, elt, conds = v.origin
+            base = ('each', canon(seq), canon(elt), tuple(canon(c) for c in conds), v.kind == 'set')
+        else:
+            base = ('L', tuple(canon(i) for i in v.items))
+        if v.tail:
+            parts = [base] if (v.origin is not None or v.items) else []
+            for t in v.tail:
+                c = canon(t)
+                parts.extend(c[1] if isinstance(c, tuple) and c and c[0] == 'concat' else [c])
+            return ('concat', tuple(parts))
+        return base
+    if isinstance(v, T):
+        if v.op == 'bin':
+            op, l, r = v.args
+            cl, cr = canon(l), canon(r)
+            listy = lambda c: isinstance(c, tuple) and c and c[0] in ('L', 'each', 'concat', 'rep')
+            if op == '+' and (listy(cl) or listy(cr)):
+                parts = []
+                for c in (cl, cr):
+                    parts.extend(c[1] if c[0] == 'concat' else [c])
+                return ('concat', tuple(parts))
+            if op == '*' and (listy(cl) or listy(cr)):
+                return ('rep', cl, cr) if listy(cl) else ('rep', cr, cl)
+            if op in ('+', '*'):
+                a, b = sorted((cl, cr), key=repr)
+                return ('bin', op, a, b)
+            return ('bin', op, cl, cr)
+        if v.op == 'call':
+            name = v.args[0] if isinstance(v.args[0], str) else canon(v.args[0])
+            if name in ('set', 'frozenset') and len(v.args[1]) == 1:
+                c = canon(v.args[1][0])
+                if isinstance(c, tuple) and c and c[0] == 'each':
+                    return c[:4] + (True,)
+            return ('call', name, tuple(canon(a) for a in v.args[1]), tuple((k, canon(x)) for k, x in v.args[2]))
+        if v.op in ('lambda', 'func'):
+            return (v.op, v.args[0])
+        return (v.op,) + tuple(canon(a) for a in v.args)
+    if isinstance(v, tuple):
+        return tuple(canon(a) for a in v)
+    return v
+
+
+def gname(v):
+    """Dotted source name of a global reference, else the printed term."""
+    if isinstance(v, T) and v.op == 'global':
+        return v.args[0]
+    return show(v)
+
+
+def contains(v, x):
+    """Does the term `v` mention `x` (a Sym or term)?"""
+    if v == x:
+        return True
+    if isinstance(v, T):
+        return any(contains(a, x) for a in v.args)
+    if isinstance(v, tuple):
+        return any(contains(a, x) for a in v)
+    if isinstance(v, SList):
+        return any(contains(a, x) for a in v.items) or (v.origin is not None and (contains(v.origin[0], x) or contains(v.origin[1], x)))
+    return False
 
 
 def walk_terms(v):
